@@ -33,6 +33,12 @@ type Spec struct {
 	// change that shortens the batch timeout, so that histories with two pending batches whose timeouts are
 	// not monotonic in their nonces come within the depth bound
 	Focus bool
+	// TwoTokens (with Focus): a second bridged token whose batches share the chain's batch-nonce sequence
+	TwoTokens bool
+	// TwoCalls: two outgoing bridge calls exist from the start and the alphabet is narrowed to what the external chain
+	// and the relayers do with them (execute in either order, relay, park, execute late, let the timeout pass), so that
+	// histories in which the external chain settles the calls out of nonce order come within the depth bound
+	TwoCalls bool
 	w      *world.World
 	os     map[string][]scen.Oracle
 	firstNonce uint64 // first event nonce the external model emits
@@ -41,7 +47,7 @@ type Spec struct {
 }
 
 func (s *Spec) Name() string {
-	return fmt.Sprintf("c06/%s/params=%v/focus=%v/late-exec=%v", s.Chain, s.Params, s.Focus, s.LateExec)
+	return fmt.Sprintf("c06/%s/params=%v/focus=%v/late-exec=%v/two-calls=%v/two-tokens=%v", s.Chain, s.Params, s.Focus, s.LateExec, s.TwoCalls, s.TwoTokens)
 }
 
 type Event struct {
@@ -99,7 +105,7 @@ func (s *Spec) Init() *explore.State {
 	s.os = map[string][]scen.Oracle{s.Chain: scen.SetupOracles(w, ctx, s.Chain, []string{s.Chain + "-o1"}, []int64{10000})}
 	nonces := map[string]uint64{}
 	s.fx = scen.RegisterFX(w, ctx, s.os, nonces, extHeight0)
-	if s.Focus {
+	if s.Focus && s.TwoTokens {
 		s.usdt = scen.RegisterModuleToken(w, ctx, "USDT", map[string][]scen.Oracle{s.Chain: s.os[s.Chain]}, nonces, extHeight0)
 		// u1 holds usdt in the chain's bridge denomination (what an observed deposit leaves with the receiver)
 		nonces[s.Chain]++
@@ -120,6 +126,17 @@ func (s *Spec) Init() *explore.State {
 	})
 	m := &Model{Height: extHeight0, Events: nil, Relayed: 0, BatchDone: map[string]uint64{}, CallDone: map[uint64]bool{}, ExtTx: map[uint64]bool{}, ExtCall: map[uint64]bool{}, KBatches: map[uint64]*KBatch{}, KCalls: map[uint64]uint64{},
 		RefundTx: map[uint64]bool{}, RefundCall: map[uint64]bool{}, MaxObserved: extHeight0}
+	if s.TwoCalls {
+		k := scen.Keeper(w, s.Chain)
+		for n := uint64(1); n <= 2; n++ {
+			w.MustDeliver(ctx, &cctypes.MsgBridgeCall{ChainName: s.Chain, Sender: w.A("u1").Bech(), Refund: w.A("u1").Bech(), Coins: sdk.NewCoins(sdk.NewInt64Coin("FX", 2)), To: scen.ExtAddr(s.Chain, "callee"), Data: "01", Value: sdkmath.ZeroInt()})
+			oc, ok := k.GetOutgoingBridgeCallByNonce(ctx, n)
+			if !ok {
+				panic("c06 set-up: outgoing bridge call missing")
+			}
+			m.KCalls[n] = oc.Timeout
+		}
+	}
 	return &explore.State{W: w, Ctx: ctx, Model: m}
 }
 
@@ -213,10 +230,10 @@ func (s *Spec) Ops(st *explore.State) []explore.Op {
 		name, sendDenom, batchDenom, ext string
 	}
 	toks := []tokn{{"FX", "FX", "FX", s.fx.Ext[ch]}}
-	if s.Focus {
+	if s.Focus && s.TwoTokens {
 		toks = append(toks, tokn{"usdt", s.usdt.Base, s.usdt.Bridge[ch], s.usdt.Ext[ch]})
 	}
-	if scen.LastTxPoolID(s.w, ctx, ch) < 2 {
+	if scen.LastTxPoolID(s.w, ctx, ch) < 2 && !s.TwoCalls {
 		for _, t := range toks {
 			t := t
 			name := "Send"
@@ -285,7 +302,7 @@ func (s *Spec) Ops(st *explore.State) []explore.Op {
 			ok(c, r.OK())
 		}))
 	}
-	if scen.LastBridgeCallID(s.w, ctx, ch) < 2 && !s.Focus {
+	if scen.LastBridgeCallID(s.w, ctx, ch) < 2 && !s.Focus && !s.TwoCalls {
 		ops = append(ops, s.wrap("BridgeCallOut", nil, func(c *explore.State) {
 			r := s.w.Deliver(c.Ctx, &cctypes.MsgBridgeCall{ChainName: ch, Sender: u1.Bech(), Refund: u1.Bech(), Coins: sdk.NewCoins(sdk.NewInt64Coin("FX", 2)), To: scen.ExtAddr(ch, "callee"), Data: "01", Value: sdkmath.ZeroInt()})
 			ok(c, r.OK())
@@ -298,7 +315,7 @@ func (s *Spec) Ops(st *explore.State) []explore.Op {
 	}
 	// (i) nothing can be built on a chain where no external height has been observed
 	for other := range s.os {
-		if other == ch || s.Focus {
+		if other == ch || s.Focus || s.TwoCalls {
 			continue
 		}
 		other := other
@@ -310,11 +327,13 @@ func (s *Spec) Ops(st *explore.State) []explore.Op {
 			}
 		}})
 	}
-	ops = append(ops, s.wrap("Block", nil, func(c *explore.State) {
-		next, r := s.w.NextBlock(c.Ctx, 5*time.Second)
-		c.Ctx = next
-		ok(c, r.Err == nil && r.Panic == nil)
-	}))
+	if !s.TwoCalls {
+		ops = append(ops, s.wrap("Block", nil, func(c *explore.State) {
+			next, r := s.w.NextBlock(c.Ctx, 5*time.Second)
+			c.Ctx = next
+			ok(c, r.Err == nil && r.Panic == nil)
+		}))
+	}
 	if s.Params {
 		ops = append(ops, s.wrap("Params(fastExternalBlocks)", nil, func(c *explore.State) {
 			p := k.GetParams(c.Ctx)
@@ -330,6 +349,9 @@ func (s *Spec) Ops(st *explore.State) []explore.Op {
 	// ---- external chain
 	if m.Height < extHeight0+5 {
 		ops = append(ops, explore.Op{Name: "ExtAdvance(1)", Run: func(c *explore.State) { c.Model.(*Model).Height++; ok(c, true) }})
+		if s.TwoCalls {
+			ops = append(ops, explore.Op{Name: "ExtAdvance(2)", Run: func(c *explore.State) { c.Model.(*Model).Height += 2; ok(c, true) }})
+		}
 	}
 	if len(m.Events) < 5 {
 		ops = append(ops, explore.Op{Name: "ExtDeposit", Run: func(c *explore.State) {
@@ -464,13 +486,17 @@ func init() {
 					{Name: "eth", Spec: &Spec{Chain: "eth", Params: true}, Depth: 10, ShardDepth: 2},
 					{Name: "tron", Spec: &Spec{Chain: "tron"}, Depth: 9, ShardDepth: 2},
 					{Name: "eth-batches-nonmonotonic-timeouts", Spec: &Spec{Chain: "eth", Focus: true}, Depth: 12, ShardDepth: 2},
+					{Name: "eth-batches-two-tokens", Spec: &Spec{Chain: "eth", Focus: true, TwoTokens: true}, Depth: 10, ShardDepth: 2},
 					{Name: "eth-parked-results-executed-late", Spec: &Spec{Chain: "eth", LateExec: true}, Depth: 10, ShardDepth: 2},
+					{Name: "eth-two-calls-settled-out-of-order", Spec: &Spec{Chain: "eth", LateExec: true, TwoCalls: true}, Depth: 11, ShardDepth: 2},
 				}
 			}
 			return []registry.Job{
-				{Name: "eth", Spec: &Spec{Chain: "eth", Params: true}, Depth: 8, ShardDepth: 2},
+				{Name: "eth", Spec: &Spec{Chain: "eth", Params: true}, Depth: 7, ShardDepth: 2},
 				{Name: "eth-batches-nonmonotonic-timeouts", Spec: &Spec{Chain: "eth", Focus: true}, Depth: 10, ShardDepth: 2},
+				{Name: "eth-batches-two-tokens", Spec: &Spec{Chain: "eth", Focus: true, TwoTokens: true}, Depth: 8, ShardDepth: 2},
 				{Name: "eth-parked-results-executed-late", Spec: &Spec{Chain: "eth", LateExec: true}, Depth: 8, ShardDepth: 2},
+				{Name: "eth-two-calls-settled-out-of-order", Spec: &Spec{Chain: "eth", LateExec: true, TwoCalls: true}, Depth: 9, ShardDepth: 2},
 			}
 		},
 	})
